@@ -219,3 +219,16 @@ Lemma gt_fr_periods c alpha xi n offset left_sup right_sup W idx (plo phi : Z) :
   gt_fr c alpha xi n offset left_sup right_sup W idx =
   Csum (fun period => gt_H c alpha xi n offset (IZR idx * 2 * PI / IZR W + 2 * PI * IZR period)) plo phi.
 Proof. intros <- <-. reflexivity. Qed.
+
+(* the first period of the Gabor frequency loop, without Rmax *)
+Lemma gabor_period_lo_nonneg lo : 0 <= lo -> gabor_period_lo lo = (-1)%Z.
+Proof.
+  intros H. unfold gabor_period_lo. rewrite Rmax_right by lra.
+  replace (0 / (2 * PI)) with 0 by (unfold Rdiv; ring). rewrite (Ztrunc_IZR 0). reflexivity.
+Qed.
+Lemma gabor_period_lo_neg lo (k : Z) : lo < 0 -> (0 <= k)%Z ->
+  IZR k <= - lo / (2 * PI) < IZR k + 1 -> gabor_period_lo lo = (-1 - k)%Z.
+Proof.
+  intros H Hk Hb. unfold gabor_period_lo. rewrite Rmax_left by lra.
+  rewrite (Ztrunc_eq _ k Hk Hb). reflexivity.
+Qed.
